@@ -467,3 +467,7 @@ test_counter{a="1",b="2"} 1
         assert_eq!(counter_ans, txt.as_str());
     }
 }
+
+// Verification hook: unit-level harnesses are compiled as a child module (only with `--cfg prometheus_verif`).
+#[cfg(all(prometheus_verif, any(kani, prometheus_verif_replay)))]
+include!(concat!(env!("PROMETHEUS_VERIF_INCRATE"), "/encoder_text.rs"));
